@@ -353,12 +353,12 @@ def run(ctx):
 CLAIM = {
     'technique': 'regex-field typestate (allocated/compiled) over all paths, flow-sensitive linear allocation sizes '
                  'vs copy extents, comparison facts with helper inlining before unsigned decrements, shared '
-                 'confinement rules',
+                 'confinement rules, sub-match offset rule over patterns classified literal/quoted/built (optional groups need a matched-group edge before a dereference)',
     'text': 'static analysis: decides necessary conditions C17-a..d - no exit leaves a regex allocated but uncompiled '
             'and no regexec/regfree sees one; copies into same-function allocations stay within their size (including '
             'the terminator byte); unsigned decrements in the response scanners are preceded by the comparison that '
             'makes them safe; what is written to the target satisfies the C05 confinement/verification rules for any '
-            'input. The scanner index arithmetic as a whole is not decided.',
+            'input. The scanner index arithmetic as a whole is not decided. C17-f: pointers derived from sub-match offsets of patterns with optional groups are used only when the group matched.',
     'note': 'trusted: clang 14 front end; zmalloc = calloc(1, n), zrealloc = realloc; linear forms over access paths',
 }
 
